@@ -380,4 +380,66 @@ theorem text_rt (lib : TextLib F) (hl : TextLib.Lawful lib) (dt : DType F) (hwf 
     obtain ⟨s, w, v', h1, h2, h3, h4, h5, h6⟩ := core
     exact ⟨.syn s, v', by simp [Datatypes.toString, h1], by simp [fromString, h2, h3], by simp [Datatypes.toString, h4], h5, h6⟩
 
+/-! ### every valid value of a text-well-formed type (`WFT`: a client's rebuilt type is one) is sendable
+
+`valid_sendable` of `WireCore` asks for `DType.WF`, which a rebuilt type need not satisfy (other limits at its scaled
+leaves); the limits of a scaled leaf play no part in `Sendable`, those of a double leaf are the node's. -/
+
+mutual
+theorem valid_sendable_wft : ∀ (dt : DType F) (v : PVal F), WFT dt → Valid dt v → Sendable dt v
+  | .double min max ar rr, v, hwf, hv => by
+    cases v <;> simp only [Valid, InSetG] at hv <;> try exact hv.elim
+    case float x =>
+      simp only [WFT] at hwf
+      simpa [Sendable] using double_finite hwf hv
+  | .scaled scale min max ar rr, v, hwf, hv => by
+    cases v <;> simp only [Valid, InSetG] at hv <;> try exact hv.elim
+    case float x => simpa [Sendable] using And.intro hv.1 (between_notNaN hv.2)
+  | .int min max, v, _, hv => by simp only [Sendable]; exact hv
+  | .bool, v, _, hv => by simp only [Sendable]; exact hv
+  | .enum ms, v, _, hv => by simp only [Sendable]; exact hv
+  | .string a b c, v, _, hv => by simp only [Sendable]; exact hv
+  | .blob a b, v, _, hv => by simp only [Sendable]; exact hv
+  | .array elem lo hi, v, hwf, hv => by
+    cases v <;> simp only [Valid, InSetG] at hv <;> try exact hv.elim
+    case tuple vs =>
+      simp only [WFT] at hwf
+      simp only [Sendable]
+      exact ⟨fun x hx => valid_sendable_wft elem x hwf (hv.1 x hx), hv.2.1, hv.2.2⟩
+  | .tuple elems, v, hwf, hv => by
+    cases v <;> simp only [Valid, InSetG] at hv <;> try exact hv.elim
+    case tuple vs =>
+      simp only [WFT] at hwf
+      simp only [Sendable]
+      exact valid_sendable_wft_zip elems vs hwf hv
+  | .struct ms opt cl, v, hwf, hv => by
+    cases v <;> simp only [Valid, InSetG] at hv <;> try exact hv.elim
+    case dict fields =>
+      simp only [WFT] at hwf
+      simp only [Sendable]
+      exact ⟨fun kv hkv => valid_sendable_wft_member ms kv.1 kv.2 hwf (hv.1 kv hkv), hv.2.1, hv.2.2⟩
+theorem valid_sendable_wft_zip : ∀ (ts : List (DType F)) (vs : List (PVal F)), WFTList ts → ZipInG SnapFix ts vs →
+    SendableZip ts vs
+  | [], [], _, _ => by simp [SendableZip]
+  | t :: ts, v :: vs, hwf, hz => by
+    simp only [WFTList] at hwf
+    simp only [ZipInG] at hz
+    simp only [SendableZip]
+    exact ⟨valid_sendable_wft t v hwf.1 hz.1, valid_sendable_wft_zip ts vs hwf.2 hz.2⟩
+  | [], _ :: _, _, hz => by simp [ZipInG] at hz
+  | _ :: _, [], _, hz => by simp [ZipInG] at hz
+theorem valid_sendable_wft_member : ∀ (ms : List (String × DType F)) (k : String) (v : PVal F), WFTFields ms →
+    MemberInG SnapFix ms k v → SendableMember ms k v
+  | [], _, _, _, h => by simp [MemberInG] at h
+  | (k', t) :: rest, k, v, hwf, h => by
+    simp only [WFTFields] at hwf
+    simp only [MemberInG] at h
+    simp only [SendableMember]
+    by_cases e : k' = k
+    · simp only [e, if_true] at h ⊢
+      exact valid_sendable_wft t v hwf.1 h
+    · simp only [e, if_false] at h ⊢
+      exact valid_sendable_wft_member rest k v hwf.2 h
+end
+
 end Frappy.Lemmas.C02
